@@ -2,7 +2,7 @@ package checks
 
 import (
 	"fmt"
-	"sync"
+	"math/bits"
 	"sync/atomic"
 
 	"verif/internal/cpuh"
@@ -255,17 +255,20 @@ func progSearch(depth int, seeds []progSeed, syms []progSym, useRef bool, memSee
 		}
 	}
 	envs := make([]*progEnv, par.Workers())
-	const shards = 256
-	var seen [shards]map[uint64]struct{}
-	var smu [shards]sync.Mutex
-	for i := range seen {
-		seen[i] = make(map[uint64]struct{}, 1<<12)
-	}
+	// distinct states are counted with a 2^31-bit set indexed by the state hash (bounded memory; hash
+	// collisions can only make the count smaller, so it is a lower bound on the distinct states)
+	const setBits = 1 << 31
+	seen := make([]uint64, setBits/64)
 	note := func(h uint64) {
-		k := h % shards
-		smu[k].Lock()
-		seen[k][h] = struct{}{}
-		smu[k].Unlock()
+		i := h % setBits
+		w := &seen[i/64]
+		bit := uint64(1) << (i % 64)
+		for {
+			old := atomic.LoadUint64(w)
+			if old&bit != 0 || atomic.CompareAndSwapUint64(w, old, old|bit) {
+				return
+			}
+		}
 	}
 	var trans int64
 	par.For(len(jobs), func(w, ji int) {
@@ -311,8 +314,8 @@ func progSearch(depth int, seeds []progSeed, syms []progSym, useRef bool, memSee
 		}
 		atomic.AddInt64(&trans, e.steps)
 	})
-	for i := range seen {
-		states += int64(len(seen[i]))
+	for _, w := range seen {
+		states += int64(bits.OnesCount64(w))
 	}
 	return states, trans
 }
